@@ -75,6 +75,7 @@ def parseResources (s : String) : Option (List (Int × String × Option Int)) :=
 structure Req where
   info : ReqInfo := {}
   groups : List String := []
+  txn : String := ""
   deriving Inhabited
 
 def parseReq (s : String) : Option Req :=
@@ -83,7 +84,7 @@ def parseReq (s : String) : Option Req :=
   | 'T' => do let tps ← parseTps body; pure { info := { tps := tps } }
   | 'R' => do let rs ← parseResources body; pure { info := { resources := rs } }
   | 'G' => pure { groups := splitD body "," }
-  | 'X' => pure {}
+  | 'X' => pure { txn := body }
   | 'N' => pure {}
   | _ => none
 
@@ -196,8 +197,19 @@ def showSent (xs : List Sent) (overallErr : Option String) : String :=
 
 def firstErr (xs : List Sent) : Option String := xs.findSome? fun | .err k => some k | _ => none
 
-def sendModel (a : ApiMethods) (boot : Int) (m : MResponse) (down : List Int) (vt : VTable) (coords : List Int) (q : Req) : String :=
-  let c := makeLayout (normalize m)
+/-- the FindCoordinator lookups sendRequest makes (on the control connection) before a group / transactional request:
+key, key type (0 group, 1 transaction) and the broker asked -/
+def lookups (a : ApiMethods) (boot : Int) (split : Bool) (q : Req) : List String :=
+  let toks (keys : List String) (ty : Nat) : List String := keys.map fun k => s!"{dash k}/{ty}@b{boot}"
+  match firstCase sendRequestCases a with
+  | some .group => toks (if split then q.groups else [q.groups.headD ""]) 0
+  | some .transaction => toks [q.txn] 1
+  | _ => []
+
+def withLookups (body : String) (fcs : List String) : String :=
+  if fcs.isEmpty || body.isEmpty then body else s!"{body} fc={",".intercalate (sortBy (fun a b => a < b) fcs)}"
+
+def sendBody (a : ApiMethods) (boot : Int) (c : Cluster) (down : List Int) (vt : VTable) (coords : List Int) (q : Req) : String :=
   match KV.Split.parts roundTripCases a c coords q.info with
   | some (ps, rule) =>
     let rs := ps.map (sendOne a boot c down vt)
@@ -213,6 +225,12 @@ def sendModel (a : ApiMethods) (boot : Int) (m : MResponse) (down : List Int) (v
     let r := { q.info with coordinator := coords.headD (-1) }
     let s := sendOne a boot c down vt r
     showSent [s] (firstErr [s])
+
+def sendModel (a : ApiMethods) (boot : Int) (m : MResponse) (down : List Int) (vt : VTable) (coords : List Int) (q : Req) : String :=
+  let c := makeLayout (normalize m)
+  let isSplit := (KV.Split.parts roundTripCases a c coords q.info).isSome
+  let fcs := if a.apiKey == 10 then [] else lookups a boot isSplit q
+  withLookups (sendBody a boot c down vt coords q) fcs
 
 /-! ### `send`: the property monitor on the journal -/
 
@@ -235,8 +253,23 @@ def removeOne (x : Int) : List Int → Option (List Int)
   | [] => none
   | y :: ys => if x == y then some ys else (removeOne x ys).map (y :: ·)
 
+/-- the coordinator lookups observed: (key, type) pairs; a transactional request must look its coordinator up with
+key type 1 and its transactional id, a group request with key type 0 and (one of) its group id(s) -/
+def lookupsOK (key : Nat) (q : Req) (fc : String) : Bool :=
+  let toks := (splitD fc ",").map fun t => ((t.splitOn "@").headD "").splitOn "/"
+  match routingClass key with
+  | some .txnCoordinator => !toks.isEmpty && toks.all fun t => t == [dash q.txn, "1"]
+  | some .groupCoordinator => !toks.isEmpty && toks.all fun t => match t with
+      | [k, "0"] => q.groups.isEmpty || q.groups.contains k || (k == "-" && q.groups.contains "")
+      | _ => false
+  | _ => true
+
 def sendHolds (key : Nat) (split : Bool) (boot : Int) (m : MResponse) (down : List Int) (cr : Int × Int) (vt : VTable)
-    (coords : List Int) (q : Req) (impl : String) : Bool :=
+    (coords : List Int) (q : Req) (implFull : String) : Bool :=
+  let (impl, fc) := match implFull.splitOn " fc=" with
+    | [a, b] => (a, b)
+    | _ => (implFull, "-")
+  lookupsOK key q fc &&
   match parseSent impl with
   | none => false
   | some (oks, err) =>
